@@ -142,6 +142,9 @@ def handler : Handler := fun op j =>
     let step (acc : LinOpState × List Json) (o : LinOpOp) : LinOpState × List Json :=
       let s := acc.1.step o
       (s, jSt s :: acc.2)
+    let own := (fBool? j "own").getD false     -- MatrixOperator: own adj / gram / gram_op
+    let step := if own then (fun (acc : LinOpState × List Json) (o : LinOpOp) =>
+      let s := acc.1.stepOwn o; (s, jSt s :: acc.2)) else step
     let s0 := LinOpState.init v jitOpt
     let r := ops.foldl step (s0, [jSt s0])
     some (ok (jArr r.2.reverse))
